@@ -465,6 +465,9 @@ bool HllArray<A>::isCompact() const {
 
 template<typename A>
 bool HllArray<A>::isEmpty() const {
+  // curMin_ and numAtCurMin_ are stale while a rebuild is pending: the flag is set by
+  // Hll8Array::mergeHll(), which is only ever called with a non-empty source
+  if (rebuild_kxq_curmin_) return false;
   const uint32_t configK = 1 << this->lgConfigK_;
   return (curMin_ == 0) && (numAtCurMin_ == configK);
 }
